@@ -206,6 +206,35 @@ def op_tablevars(js, pfx, query, names, norm, width):
     return enc_varmap(d)
 
 
-for _n, _f in (('tablevars', op_tablevars), ('joinresolve', op_joinresolve), ('exceptcols', op_exceptcols), ('dictvars', op_dictvars), ('attrvars', op_attrvars), ('directvars', op_directvars), ('clidialect', op_clidialect), ('starcount', op_starcount), ('starvars', op_starvars), ('starmarker', op_starmarker), ('trsel', op_trsel), ('updpairs', op_updpairs),
+def _enc_num(v):
+    import math
+    if isinstance(v, bool):
+        return 'OTHER'
+    if isinstance(v, int):
+        return 'I%d' % v
+    if isinstance(v, float):
+        return 'NF' if (math.isinf(v) or math.isnan(v)) else 'F' + v.hex()
+    return 'OTHER'
+
+
+def _nh_parse(h, s):
+    try:
+        return _enc_num(h.parse(s))
+    except rbql_engine.RbqlRuntimeError:
+        return 'BAD'
+
+
+def op_pynum(s):
+    """the REAL NumHandler.parse on a string, in integer mode (MIN/MAX/SUM/MEDIAN) and in float mode (AVG/VARIANCE)"""
+    s = dec_str(s)
+    return _nh_parse(rbql_engine.NumHandler(True), s) + ' ' + _nh_parse(rbql_engine.NumHandler(False), s)
+
+
+def op_numhandler(start_int, l):
+    h = rbql_engine.NumHandler(start_int == '1')
+    return ' '.join(_nh_parse(h, s) for s in dec_list(l))
+
+
+for _n, _f in (('pynum', op_pynum), ('numhandler', op_numhandler), ('tablevars', op_tablevars), ('joinresolve', op_joinresolve), ('exceptcols', op_exceptcols), ('dictvars', op_dictvars), ('attrvars', op_attrvars), ('directvars', op_directvars), ('clidialect', op_clidialect), ('starcount', op_starcount), ('starvars', op_starvars), ('starmarker', op_starmarker), ('trsel', op_trsel), ('updpairs', op_updpairs),
                ('basicvars', op_basicvars), ('arrayvars', op_arrayvars), ('selinfos', op_selinfos)):
     impl_py.register(_n, _f)
